@@ -22,7 +22,7 @@ def run_all(patch):
         os.makedirs(os.path.join(tv, "checker"), exist_ok=True)
         shutil.copy(os.path.join(VERIF, "checker", "known_funcs.txt"), os.path.join(tv, "checker"))
         env = dict(os.environ)
-        r = subprocess.run([os.path.join(VERIF, "bin/verifcheck"), "-repo", dst, "-verif", tv, "-prop", "all"], capture_output=True, text=True, env=env)
+        r = subprocess.run([os.environ.get("VERIFCHECK_BIN", os.path.join(VERIF, "bin/verifcheck")), "-repo", dst, "-verif", tv, "-prop", "all"], capture_output=True, text=True, env=env)
         out = r.stdout + r.stderr
         caught = {}
         cur = None
